@@ -465,3 +465,10 @@ fn sort_field_name(field_1: SelectableName, field_2: SelectableName) -> Ordering
         field_1.cmp(field_2)
     }
 }
+
+/// Visibility-only hook for /verif.
+#[cfg(isographlabs_isograph_verif)]
+pub(crate) fn verif_sort_field_name(field_1: &str, field_2: &str) -> Ordering {
+    use intern::string_key::Intern;
+    sort_field_name(field_1.intern().into(), field_2.intern().into())
+}
